@@ -195,6 +195,7 @@ class SimSocket(object):
         self.opened_by = Sim.current.running.name if Sim.current.running is not None else 'ctrl'
         self.owner_tag = None
         self.closed_seq = None
+        self.closed_t = None
         self.closed_by = None
         self.opened_seq = Sim.current.nlog
         try:
